@@ -689,7 +689,7 @@ func (m *metadataAPI) ReportLeader(ctx context.Context, req *proto.ReportLeaderO
 	}
 	m.mu.Unlock()
 
-	return failover.report(ctx, req.Replica)
+	return failover.report(ctx, req.Replica, epoch)
 }
 
 func (m *metadataAPI) newPartitionFailoverExpiredHandler(p *partition) failoverExpiredHandler {
@@ -894,7 +894,7 @@ func (m *metadataAPI) ReportGroupCoordinator(ctx context.Context, req *proto.Rep
 	}
 	m.consumerGroupsMu.Unlock()
 
-	return failover.report(ctx, req.ConsumerId)
+	return failover.report(ctx, req.ConsumerId, epoch)
 }
 
 func (m *metadataAPI) newGroupFailoverExpiredHandler(g *consumerGroup) failoverExpiredHandler {
